@@ -26,13 +26,14 @@ def shapes(chk):
     return out, subs
 
 
-def build_entries(combo, subsel, subs):
+def build_entries(combo, subsel, subs, same_names=False):
+    """same_names: every eligible file has the same base name (files of different directories may share a name)"""
     cnt = [0]
 
     def fresh(kind):
         cnt[0] += 1
         if kind == 'E':
-            return ('file', 'f%d.sol' % cnt[0], 't%d' % cnt[0])
+            return ('file', 'Same.sol' if same_names else 'f%d.sol' % cnt[0], 't%d' % cnt[0])
         if kind == 'X':
             return ('file', 'n%d.txt' % cnt[0], 't%d' % cnt[0])
         if kind == 'T':
@@ -73,14 +74,16 @@ def job(chk, item):
     pats_all = [p for p, _ in dl.CATS[cat]['patterns']]
     names = dict(dl.CATS[cat]['patterns'])
     for (combo, subsel, npat) in todo:
-        ents = build_entries(combo, subsel, subs)
+        same = npat < 0
+        npat = abs(npat)
+        ents = build_entries(combo, subsel, subs, same)
         tree = dl.Tree(ents)
         patterns = pats_all[:npat]
         files = all_files(ents)
         # F is a free choice (empty / one line) for the first pattern, fixed non-empty for the others
         fres = {(f[2], p): 'nonempty' for f in files for p in patterns[1:]}
         dl.install_stubs(e, cat, tree, fres)
-        label = '%s %s%s patterns=%d' % (cat, ''.join(combo), list(subsel), npat)
+        label = '%s %s%s patterns=%d%s' % (cat, ''.join(combo), list(subsel), npat, ' same file names' if same else '')
         try:
             paths = dl.run_dir(e, cat, tree, patterns)
         except Exception as ex:
@@ -154,11 +157,15 @@ def body(chk):
             nfiles = sum(1 for c in combo if c != 'D') + sum(len(subs[s]) for s in subsel)
             for npat in ((1, 2) if nfiles <= 3 else (1,)):
                 todo[cat].append((combo, subsel, npat))
+            # the same shape with one base name for all eligible files (possible when no directory holds two of them);
+            # the per-file line sets are symbolic, so equal (name, lines) pairs of different files are in the family
+            if 'D' in combo and combo.count('E') <= 1 and all(subs[s_].count('E') <= 1 for s_ in subsel):
+                todo[cat].append((combo, subsel, -1))
     if chk.quick:
         for cat in todo:
             lst = todo[cat]
             chk.rng.shuffle(lst)
-            keep = [t for t in lst if t[0].count("D") >= 2][:15] + lst[:40]
+            keep = [t for t in lst if t[0].count("D") >= 2][:15] + lst[:40] + [t for t in lst if t[2] < 0][:12]
             todo[cat] = keep
     chk.bounds = {'directory trees': '%d per category: 1..3 entries per directory (eligible file / other file / sub-directory), sub-directories with 0..2 entries, depth <= 3' % len(todo['opt']),
                   'listing order': 'every order of every directory (a decision per read_dir step)', 'patterns': '1..2 selected patterns',
